@@ -4,9 +4,13 @@ Cases:
   {"kind": "run", "fixed": [[3]..], "mobile": [[3]..], "tree": [[a,b]..], "restr": [[i,j]..], "sim": [..],
    "n_steps": N, "sigma": s, "width": w, "seed": S, "cls": "..."}
   {"kind": "accept", "e0": x, "e1": y, "seed": S, "pyfloat": bool}
+  {"kind": "backend", "warn": bool | null}           check_backend_installed(warn_missing) called directly
 
-`minimize_molecules` (→ pure-Python `_minimize_molecules`, the compiled backend is not installed) is run
-under `harness.mcwrap.Recorder`; every iteration is then recomputed by `gmdriver` from the
+Half of the runs (even seed) go through the PUBLIC wrapper `minimize_molecules`, the other half call the engine
+`_minimize_molecules` directly; every third run is repeated through the other route under the same seed: with the
+compiled backend absent the wrapper must emit its warning exactly once, call the engine exactly once with its own
+arguments, and return bit-identically what the engine returns from an identical draw sequence.
+The search is run under `harness.mcwrap.Recorder`; every iteration is then recomputed by `gmdriver` from the
 implementation's own pre-state (`mc_step`), the whole run is replayed through the model's `mcLoop`
 (`mc_run`), and the clauses of the property are evaluated directly on what the implementation did.
 """
@@ -22,7 +26,9 @@ RULE = ("run: fixed 1..40 x mobile 1..25 atoms (generic coordinates at scale 10^
         "and coincident-molecule edge cases), mobile bond graph a random tree with lengths from the geometry, "
         "restraint lists empty/partial/duplicated/total, every non-empty subset of {0,1,2} incl. reordered and "
         "repeated entries (type 2 only with >= 2 mobile atoms), budgets 1..2000 (0 as edge), widths incl. 0, "
-        "np.random.seed from the run seed; accept: direct calls incl. exact ties, adjacent floats and zeros. "
+        "np.random.seed from the run seed; even seeds through the public wrapper minimize_molecules, odd seeds through "
+        "_minimize_molecules, every third run through both; check_backend_installed called directly with "
+        "warn_missing True/False/default; accept: direct calls incl. exact ties, adjacent floats and zeros. "
         "Non-trivial = a run with at least one iteration, or an accept call with e0 != e1; distinct by hash.")
 
 SUBSETS = [(0,), (1,), (2,), (0, 1), (0, 2), (1, 2), (0, 1, 2)]
@@ -112,6 +118,9 @@ def generate(ctx):
                "tree": _tree(rng, n2), "restr": _restr(rng, n1, n2), "sim": sim,
                "n_steps": _budget(rng, n1 * n2 <= 80), "sigma": rng.choice([0.5, 0.5, 0.1, 1.0]),
                "width": width, "seed": rng.randrange(2 ** 31), "cls": "lattice" if lattice else "generic"}
+    # (appended after the streams above, which keep their random stream)
+    for warn in (True, False, None, True):
+        yield {"kind": "backend", "warn": warn}
 
 
 def _bonds_info(mobile, tree):
@@ -178,9 +187,15 @@ def _eval_accept(ctx, case):
     ctx.model.ask("mc_accept", f"{fbits(e0)} {fbits(e1)} {tape}", cb, case)
 
 
-def run_search(case):
+def route_of(case):
+    """which entry point a run uses: the public wrapper (even seed) or the engine itself (odd seed)"""
+    return case.get("via") or ("wrapper" if int(case["seed"]) % 2 == 0 else "engine")
+
+
+def run_search(case, via=None):
     """run the real search under the recorder. Returns (recorder, ret, err, inputs)."""
     import gaddlemaps._backend as B
+    via = via or route_of(case)
     fixed = np.array(case["fixed"], dtype=float).reshape(-1, 3)
     mobile = np.array(case["mobile"], dtype=float).reshape(-1, 3)
     info = _bonds_info(mobile, case["tree"])
@@ -192,17 +207,68 @@ def run_search(case):
     ret, err = None, None
     with Recorder(budget=int(case["n_steps"])) as rec:
         try:
-            ret = B.minimize_molecules(fixed, mobile, com, float(case["sigma"]), int(case["n_steps"]), restr,
-                                       info, float(case["width"]), tuple(case["sim"]))
+            fn = B.minimize_molecules if via == "wrapper" else B._minimize_molecules
+            ret = fn(fixed, mobile, com, float(case["sigma"]), int(case["n_steps"]), restr,
+                     info, float(case["width"]), tuple(case["sim"]))
         except Exception as e:   # noqa: BLE001 — mapped to its class name below
             err = e
     return rec, ret, err, (fixed, mobile)
+
+
+def wrapper_events(rec):
+    checks = [e for e in rec.events if e[0] == "backend_check"]
+    warns = [e for e in rec.events if e[0] == "warning"]
+    engines = [e for e in rec.events if e[0] == "engine_call"]
+    return checks, warns, engines
+
+
+def _eval_backend(ctx, case):
+    """check_backend_installed(warn_missing) called directly"""
+    import gaddlemaps._backend as B
+    warn = case["warn"]
+    with Recorder() as rec:
+        res = B.check_backend_installed() if warn is None else B.check_backend_installed(warn_missing=warn)
+    _, warns, _ = wrapper_events(rec)
+    try:
+        import cython_backend._backend  # noqa: F401
+        importable = True
+    except ImportError:
+        importable = False
+    ctx.case(case, nontrivial=True)
+    ctx.count(f"backend_check:warn_missing={warn}:installed={importable}:warnings={len(warns)}")
+    ctx.oracle_ok(2)
+    if bool(res) != importable:
+        ctx.oracle_fail("backend_check:wrong-answer", case, {"returned": bool(res), "importable": importable})
+    want = 1 if (warn and not importable) else 0
+    if len(warns) != want:
+        ctx.oracle_fail("backend_check:warning-count", case, {"warnings": len(warns), "expected": want})
+
+    def cb(status, t, case, res=bool(res), n=len(warns)):
+        if status != "ok" or bool(int(t[0])) != res or int(t[1]) != n:
+            mcwrap.disagree(ctx, case, "check_backend_installed (flag, warnings)", [res, n], [status] + t[:2])
+    ctx.model.ask("backend_check", f"{int(importable)} {int(bool(warn))}", cb, case)
 
 
 def _eval_run(ctx, case):
     rec, ret, err, (fixed, mobile) = run_search(case)
     sim, n_steps = case["sim"], int(case["n_steps"])
     cls = case.get("cls", "?")
+    via = route_of(case)
+    ctx.count("route:" + via)
+    checks, warns, engines = wrapper_events(rec)
+    installed = bool(checks[0][3]) if checks else False
+    if via == "wrapper":
+        # the wrapper's own steps: one check (asking for the warning), the warning once per call when the compiled
+        # backend is absent, the engine called exactly once
+        ctx.oracle_ok(1)
+        if len(checks) != 1 or checks[0][2].get("warn_missing") is not True and checks[0][1] != (True,):
+            ctx.oracle_fail("wrapper:backend-check", case, {"checks": [c[1:] for c in checks]})
+        elif not installed and (len(warns) != 1 or len(engines) != 1):
+            ctx.oracle_fail("wrapper:warning-or-engine-call-count", case, {"warnings": len(warns), "engine_calls": len(engines)})
+        if installed:
+            ctx.count("wrapper:compiled-backend-installed(result not comparable)")
+    elif checks or warns:
+        ctx.oracle_fail("engine:consulted-the-backend-check", case, {"checks": len(checks), "warnings": len(warns)})
     ctx.count("run:" + cls.split(":")[0])
     ctx.count("sim:" + "".join(str(s) for s in sorted(set(sim))))
     start = next((i for i, e in enumerate(rec.events) if e[0] == "chi2_new"), None)
@@ -251,6 +317,43 @@ def _eval_run(ctx, case):
         ctx.oracle_fail("search:input-modified", case, None)
     oracle_run(ctx, case, run, ret, n_steps, sim, mobile)
     check_run(ctx, case, run, ret, n_steps, sim, tag="mc")
+    if via == "wrapper" and K <= 4000 and ctx.budget_scale <= 1.0:
+        # the public wrapper in the model: warnings, which engine, returned configuration, tape consumed exactly
+        try:
+            wreq = f"{int(installed)} " + mcwrap.run_request(run, n_steps, [int(x) for x in sim])
+
+            def cbw(status, t, case, nw=len(warns), ret=ret):
+                if status != "ok":
+                    mcwrap.disagree(ctx, case, "mc_wrap: model error", "ok", [status] + t[:2])
+                    return
+                r = mcwrap.Reader(t)
+                mw, comp, tag = r.int(), r.int(), r.tok()
+                if mw != nw or comp != 0 or tag != "R":
+                    mcwrap.disagree(ctx, case, "minimize_molecules: warnings / engine / outcome", [nw, 0, "R"], [mw, comp, tag])
+                    return
+                c = r.cfg()
+                left = r.int()
+                if not mcwrap.close_cfg(c, ret) or left != 0:
+                    mcwrap.disagree(ctx, case, "minimize_molecules: returned configuration, tape leftover", ret, [c, left])
+            if not installed:
+                ctx.count("model:wrapper-runs-replayed")
+                ctx.model.ask("mc_wrap", wreq, cbw, case)
+        except GrammarError:
+            pass
+    # the other route under the same seed: identical draws, bit-identical result
+    if case["seed"] % 3 == 0 and not installed:
+        other = "engine" if via == "wrapper" else "wrapper"
+        rec2, ret2, err2, _ = run_search(case, via=other)
+        d1 = [e[4] for e in rec.events if e[0] == "draw"]
+        d2 = [e[4] for e in rec2.events if e[0] == "draw"]
+        k1 = [(e[1], tuple(np.shape(e[4]))) for e in rec.events if e[0] == "draw"]
+        k2 = [(e[1], tuple(np.shape(e[4]))) for e in rec2.events if e[0] == "draw"]
+        ctx.oracle_ok(1)
+        ctx.count("wrapper-vs-engine:twin-runs")
+        if err2 is not None or k1 != k2 or not all(mcwrap.same_bits(a, b) for a, b in zip(d1, d2)) \
+                or not mcwrap.same_bits(ret, ret2):
+            ctx.oracle_fail("wrapper:differs-from-engine", case,
+                            {"draws": [len(d1), len(d2)], "error": None if err2 is None else type(err2).__name__})
     # distribution arguments of the draws (not part of the tape the model reads)
     w = float(case["width"])
     for st in run.steps:
@@ -298,4 +401,6 @@ def evaluate(ctx, case):
         return _eval_accept(ctx, case)
     if case["kind"] == "run":
         return _eval_run(ctx, case)
+    if case["kind"] == "backend":
+        return _eval_backend(ctx, case)
     raise ValueError("unknown case kind")
